@@ -982,12 +982,18 @@ class Gen:
             n = r.choice([20, 25, 30, 40, 50, 60])
             forms = ["{a}*{a}", "{a} * {a} * {a}", "{a}+{a}", "{a} - {a} + {a}", "({a}+1)*({a}-1)", "{a}*{a}/1", "<{a}>*<{a}>", "{a}*{a} % 7", "-{a}*-{a}", "{a}*{b}",
                      "({a} & {a}) | {a}", "{a} _ 0 + {a}", "{a}*{a} + {b}*{b}", "~{a} & {a}", "{a}/{a}*{a}", "{a}*{a} ! {b}"]
+            x0 = r.choice(['1', '0', '-1', '0', '. - . + 1'])
+            if x0 != '0':
+                # sums of products would grow doubly exponentially from a non-zero start: a value blow-up, not what this kind is about
+                forms = [f for f in forms if not ("+" in f and "*" in f)]
             form = r.choice(forms) if self.p(0.6) else None
-            defs = [f"x0 = {r.choice(['1', '0', '-1', '1', '. - . + 1'])}"]
+            defs = [f"x0 = {x0}"]
             for i in range(1, n + 1):
                 f = form or r.choice(forms)
                 defs.append(f"x{i} = " + f.format(a=f"x{i - 1}", b=f"x{max(i - 2, 0)}"))
             use = r.choice([f".word x{n}", f".byte x{n} & 1", f".blkb x{n} & 3", f"mov #x{n}, r0", f".word x{n}, x{n // 2}"])
+            if "." not in defs[0]:
+                self.tags.append("acyclic")
             lines = self.ordered(defs, use, r.choice(["backward", "backward", "shuffled", "forward"]))
         elif kind == "include-graph":
             lines = self.block(r.choice([0, 1, 3]), 0, False) + self.include_graph().split("\n") + self.block(r.choice([0, 1]), 0, False)
